@@ -555,26 +555,121 @@ theorem any_any_and {α β : Type} (l : List α) (m : List β) (A : α → Bool)
     simp only [List.any_cons, ih, hm]
     cases A x <;> cases m.any B <;> cases P <;> simp
 
-/-- which flows the rules writePolicyChainRules emits for one (rule, direction) match -/
+/-! chunks of a port list -/
+
+theorem mem_chunksOf (n : Nat) (hn : 0 < n) (x : Nat) : ∀ (fuel : Nat) (l : List Nat), l.length ≤ fuel →
+    ((∃ ch ∈ chunksOf n fuel l, x ∈ ch) ↔ x ∈ l) := by
+  intro fuel
+  induction fuel with
+  | zero =>
+    intro l hl
+    have : l = [] := List.length_eq_zero_iff.mp (Nat.le_zero.mp hl)
+    subst this; simp [chunksOf]
+  | succ fuel ih =>
+    intro l hl
+    by_cases he : l = []
+    · subst he; simp [chunksOf]
+    · simp only [chunksOf, he, if_false, List.mem_cons, exists_eq_or_imp]
+      have hlen : (l.drop n).length ≤ fuel := by
+        have : 0 < l.length := List.length_pos_iff.mpr he
+        simp only [List.length_drop]; omega
+      rw [ih (l.drop n) hlen]
+      constructor
+      · rintro (h | h)
+        · exact List.mem_of_mem_take h
+        · exact List.mem_of_mem_drop h
+      · intro h
+        rw [← List.take_append_drop n l] at h
+        exact List.mem_append.mp h
+
+theorem chunksOf_length (n : Nat) : ∀ (fuel : Nat) (l : List Nat), ∀ ch ∈ chunksOf n fuel l, ch.length ≤ n := by
+  intro fuel
+  induction fuel with
+  | zero => intro l ch h; simp [chunksOf] at h
+  | succ fuel ih =>
+    intro l ch h
+    by_cases he : l = []
+    · subst he; simp [chunksOf] at h
+    · simp only [chunksOf, he, if_false, List.mem_cons] at h
+      rcases h with rfl | h
+      · exact List.length_take_le n l
+      · exact ih _ ch h
+
+/-- the chunks of a port list together hold exactly its ports (and `chunk = 0`, the old single rule, too) -/
+theorem portChunks_contains (n : Nat) (ports : List Nat) (x : Nat) :
+    (portChunks n ports).any (fun ps => ps.contains x) = ports.contains x := by
+  unfold portChunks
+  by_cases h0 : n = 0
+  · simp only [h0, if_true]
+    cases ports <;> simp
+  · simp only [h0, if_false]
+    rw [Bool.eq_iff_iff, List.any_eq_true]
+    simp only [List.contains_iff_mem]
+    exact mem_chunksOf n (Nat.pos_of_ne_zero h0) x ports.length ports (Nat.le_refl _)
+
+theorem portRules_any (sets : List IpSet) (f : Flow) (cm : String) (s d : SetName) (p : Proto) (chunks : List (List Nat)) :
+    (chunks.map (fun ps => (⟨[.comment cm, .proto p, .setSrc s, .setDst d, .dports ps], .accept⟩ : PRule))).any
+        (PRule.matches sets f) =
+      ((f.proto == p) && setHas sets s f.src && setHas sets d f.dst && chunks.any (fun ps => ps.contains f.dport)) := by
+  induction chunks with
+  | nil => simp
+  | cons ch rest ih =>
+    simp only [List.map_cons, List.any_cons, ih]
+    simp only [PRule.matches, List.all_cons, List.all_nil, Mt.holds, Bool.and_true, Bool.true_and]
+    cases (f.proto == p) <;> cases setHas sets s f.src <;> cases setHas sets d f.dst <;> simp
+
+/-- which flows the rules writePolicyChainRules emits for one (rule, direction) match — whatever the chunk size -/
+theorem tplRulesWith_any (n : Nat) (sets : List IpSet) (f : Flow) (cm : String) (s d : SetName) (tcp udp : List Nat) :
+    (tplRulesWith n cm s d tcp udp).any (PRule.matches sets f) =
+      (setHas sets s f.src && setHas sets d f.dst && portTpl tcp udp f) := by
+  unfold tplRulesWith
+  rw [List.any_append, List.any_append, portRules_any, portRules_any, portChunks_contains, portChunks_contains]
+  unfold portTpl
+  cases hs : setHas sets s f.src <;> cases hd : setHas sets d f.dst <;> cases hp : f.proto <;>
+    cases tcp <;> cases udp <;> simp [PRule.matches, Mt.holds, hs, hd, hp]
+
 theorem chainRules_any (sets : List IpSet) (f : Flow) (cm : String) (srcs dsts : List SetName) (tcp udp : List Nat) :
     (chainRules cm srcs dsts tcp udp).any (PRule.matches sets f) =
       (srcs.any (fun s => setHas sets s f.src) && dsts.any (fun d => setHas sets d f.dst) && portTpl tcp udp f) := by
   unfold chainRules
   have : ∀ s d, (tplRules cm s d tcp udp).any (PRule.matches sets f) =
-      (setHas sets s f.src && setHas sets d f.dst && portTpl tcp udp f) := by
-    intro s d
-    unfold tplRules
-    cases hs : setHas sets s f.src <;> cases hd : setHas sets d f.dst <;>
-      cases tcp <;> cases udp <;> simp [PRule.matches, Mt.holds, portTpl, hs, hd, Bool.and_comm]
+      (setHas sets s f.src && setHas sets d f.dst && portTpl tcp udp f) :=
+    fun s d => tplRulesWith_any _ sets f cm s d tcp udp
   simp only [List.any_flatMap, this]
   exact any_any_and srcs dsts _ _ _
+
+theorem tplRulesWith_mem (n : Nat) (cm : String) (s d : SetName) (tcp udp : List Nat) (r : PRule)
+    (hr : r ∈ tplRulesWith n cm s d tcp udp) :
+    r.tgt = Tgt.accept ∧ (r.ms = [.comment cm, .protoAll, .setSrc s, .setDst d]) ∨
+    r.tgt = Tgt.accept ∧ (∃ p ps, r.ms = [.comment cm, .proto p, .setSrc s, .setDst d, .dports ps] ∧
+      (ps ∈ portChunks n tcp ∨ ps ∈ portChunks n udp)) := by
+  simp only [tplRulesWith, List.mem_append, List.mem_map] at hr
+  rcases hr with (⟨ps, hps, rfl⟩ | ⟨ps, hps, rfl⟩) | hr
+  · exact Or.inr ⟨rfl, _, ps, rfl, Or.inl hps⟩
+  · exact Or.inr ⟨rfl, _, ps, rfl, Or.inr hps⟩
+  · split at hr
+    · simp at hr; subst hr; exact Or.inl ⟨rfl, rfl⟩
+    · cases hr
+
+/-- with the chunk loop of the current source no emitted rule exceeds the multiport limit -/
+theorem tplRules_portsOK (cm : String) (s d : SetName) (tcp udp : List Nat) :
+    ∀ r ∈ tplRules cm s d tcp udp, r.portsOK = true := by
+  intro r hr
+  have hc : 0 < G.multiportChunk ∧ G.multiportChunk ≤ multiportMax := by decide
+  rcases tplRulesWith_mem _ cm s d tcp udp r hr with ⟨_, hm⟩ | ⟨_, p, ps, hm, hps⟩
+  · simp [PRule.portsOK, hm]
+  · have hlen : ps.length ≤ G.multiportChunk := by
+      have h0 : G.multiportChunk ≠ 0 := Nat.pos_iff_ne_zero.mp hc.1
+      rcases hps with h | h <;> (simp only [portChunks, h0, if_false] at h; exact chunksOf_length _ _ _ ps h)
+    simp only [PRule.portsOK, hm, List.all_cons, List.all_nil, Bool.and_true, Bool.true_and, decide_eq_true_eq]
+    exact Nat.le_trans hlen hc.2
 
 theorem chainRules_tgt (cm : String) (srcs dsts : List SetName) (tcp udp : List Nat) :
     ∀ r ∈ chainRules cm srcs dsts tcp udp, r.tgt = Tgt.accept := by
   intro r hr
-  simp only [chainRules, tplRules, List.mem_flatMap, List.mem_append] at hr
+  simp only [chainRules, tplRules, List.mem_flatMap] at hr
   obtain ⟨s, _, d, _, h⟩ := hr
-  rcases h with (h | h) | h <;> split at h <;> simp at h <;> rw [h]
+  rcases tplRulesWith_mem _ cm s d tcp udp r h with h | h <;> exact h.1
 
 /-- a chain whose rules all ACCEPT: accept iff some rule matches, otherwise fall through -/
 theorem evalRules_allAccept (call : Chain → Outcome) (sets : List IpSet) (f : Flow) (rs : List PRule)
